@@ -34,6 +34,7 @@ type c17StrModel struct {
 	reqMsg string
 	def   *string
 	catch *string
+	postErr bool // a PostTransform that always returns an error
 }
 
 type c17Call struct {
@@ -128,6 +129,12 @@ func c17StringCalls() []c17Call {
 			m.catch = &c
 			return s.Catch(c)
 		}},
+		// an issue that belongs to no test: it must be reported at the node's own path with no code of any test,
+		// whatever options the node's tests carry
+		{name: "PostTransform(returns error)", apply: func(s *z.StringSchema[string], m *c17StrModel, opt int) *z.StringSchema[string] {
+			m.postErr = true
+			return s.PostTransform(func(p any, ctx z.Ctx) error { return fmt.Errorf("transform failed") })
+		}},
 	}
 	return calls
 }
@@ -136,6 +143,15 @@ var c17Subjects = []string{"", "ab1", "abcd", "xbcdefg", "a", "zzzz9", "   "}
 
 // expected outcome of the model on a subject
 func (m *c17StrModel) eval(subj string, validate bool) (issues []string, dest string) {
+	issues, dest = m.evalTests(subj, validate)
+	if m.postErr && len(issues) == 0 {
+		// PostTransforms run when the node is left without any issue; the error is reported at the node's path
+		issues = []string{"||*"}
+	}
+	return issues, dest
+}
+
+func (m *c17StrModel) evalTests(subj string, validate bool) (issues []string, dest string) {
 	dest = "§"
 	absent := strings.TrimSpace(subj) == ""
 	if validate {
@@ -228,7 +244,7 @@ func c17StringScenario(maxLen int, first int) mc.Scenario {
 				}
 				// params: the i-th issue belongs to the i-th failing test (tests run in declaration order)
 				perr := ""
-				if m.catch == nil && len(l) > 0 && l[0].Code != "required" {
+				if m.catch == nil && len(l) > 0 && l[0].Code != "required" && !(m.postErr && len(l) == 1 && l[0].Code == "") {
 					val := subj
 					if (mode == 0 && strings.TrimSpace(subj) == "") || (mode == 1 && subj == "") {
 						if m.def != nil {
